@@ -259,3 +259,84 @@ def ids_round_trip(ctx):
     src = ''.join(unparse(w.node).split())
     ctx.check('ifnotlen(ids):ids=None' in src and 'elifids.count(ids[0])==len(ids):ids=ids[0]' in src and 'ifidsisnotNone:' in src, 'write_raw_file#ids',
               'no ids -> none written; uniform ids -> the single value (tested with `is not None`, so id 0 is written)', 'write_raw_file id handling changed', w, w.node)
+
+
+# what `'%s' % value` can print for recorded data: float('inf') -> inf, float('nan') -> nan, and - with the numpy this
+# repository runs with - numpy scalars as np.float64(...) (array inputs are recorded as lists of numpy scalars)
+EMITTED_NAMES = ('inf', 'nan', 'np')
+
+
+def _bound_before(fnode, stmt):
+    """names bound in fnode (parameters, imports, assignments) by statements that precede `stmt` at the top level"""
+    names = set(a.arg for a in fnode.args.args)
+    for st in fnode.body:
+        if st is stmt or st.lineno >= stmt.lineno:
+            break
+        names.update(assigned_names(st))
+        if isinstance(st, (ast.Import, ast.ImportFrom)):
+            names.update((a.asname or a.name).split('.')[0] for a in st.names)
+    return names
+
+
+@rule('C20.g', min_instances=2)
+def reader_namespaces_bind_what_writers_emit(ctx):
+    """text written with '%s' can mention inf, nan and np (numpy scalars print as np.float64(...)): the namespace in which logfile_reader evaluates each field binds all three, and the header write_raw_file / write_support_file / write_converge_file emit defines all three before the data lines"""
+    rd = ctx.func(MU + ':logfile_reader')
+    evals = [c for c in calls_where(rd.node, lambda c: isinstance(c.func, ast.Name) and c.func.id == 'eval', include_lambda=False)]
+    ctx.need(evals, 'logfile_reader: no eval of the fields found')
+    for c in evals:
+        ns_nodes = list(c.args[1:3]) + [k.value for k in c.keywords if k.arg in ('globals', 'locals')]
+        bound = set()
+        unknown = False
+        for nsn in ns_nodes:
+            node = nsn
+            if isinstance(node, ast.Name):
+                ds = [s for s in stmts_of(rd.node) if isinstance(s, ast.Assign) and len(s.targets) == 1 and isinstance(s.targets[0], ast.Name) and s.targets[0].id == node.id]
+                if len(ds) != 1:
+                    unknown = True
+                    continue
+                src_stmt, node = ds[0], ds[0].value
+            else:
+                src_stmt = enclosing_stmt(c)
+            # locals().copy() / dict(locals()) / locals(): the names bound so far
+            txt = ''.join(unparse(node).split())
+            if txt in ('locals().copy()', 'dict(locals())', 'locals()', 'dict(**locals())'):
+                bound |= _bound_before(rd.node, src_stmt)
+            elif isinstance(node, ast.Dict):
+                if any(k is None for k in node.keys):
+                    unknown = True
+                bound |= set(const_value(k) for k in node.keys if k is not None)
+            elif isinstance(node, ast.Call) and callee_text(node) == 'dict' and not node.args:
+                bound |= set(k.arg for k in node.keywords if k.arg)
+            else:
+                unknown = True
+        if not ns_nodes:
+            bound |= _bound_before(rd.node, enclosing_stmt(c))   # eval in the function's own scope
+        ctx.need(not unknown or all(n in bound for n in EMITTED_NAMES), 'logfile_reader: evaluation namespace %s not understood' % [unparse(n) for n in ns_nodes])
+        missing = [n for n in EMITTED_NAMES if n not in bound]
+        ctx.check(not missing, 'logfile_reader#namespace', 'fields are evaluated where inf, nan and np are bound',
+                  'logfile_reader evaluates the fields in a namespace that does not bind %s: a log line containing it (an infinite cost, a numpy scalar from an array input) cannot be read back' % missing,
+                  rd, c, statement='eval namespace lacks %s' % missing)
+    w = ctx.func(MU + ':write_raw_file')
+    ws = [c for c in calls_where(w.node, lambda c: isinstance(c.func, ast.Attribute) and c.func.attr == 'write')]
+    defined, first_data = set(), None
+    for c in ws:
+        a = c.args[0] if c.args else None
+        skel = a.left.value if isinstance(a, ast.BinOp) and isinstance(a.left, ast.Constant) else const_value(a)
+        if not isinstance(skel, str):
+            continue
+        if isinstance(a, ast.Constant):
+            try:
+                for st in ast.parse(skel).body:
+                    defined.update(assigned_names(st))
+                    if isinstance(st, (ast.Import, ast.ImportFrom)):
+                        defined.update((x.asname or x.name).split('.')[0] for x in st.names)
+            except SyntaxError:
+                pass
+        elif skel.startswith(('params', 'cost', 'id')) and first_data is None:
+            first_data = (c, set(defined))
+    ctx.need(first_data is not None, 'write_raw_file: data lines not found')
+    missing = [n for n in EMITTED_NAMES if n not in first_data[1]]
+    ctx.check(not missing, 'write_raw_file#header', 'the header defines inf, nan and np before the data lines',
+              'the file written by write_raw_file (also behind write_support_file / write_converge_file) does not define %s before its data lines: '
+              'a trajectory containing it cannot be imported back' % missing, w, first_data[0], statement='raw file header lacks %s' % missing)
